@@ -132,6 +132,12 @@ func (b *baseExecutor) traversalArgs(node ast.Node, argsIndex *[]int32) {
 		b.traversalArgs(expr.L, argsIndex)
 		b.traversalArgs(expr.R, argsIndex)
 		break
+	case *ast.ParenthesesExpr:
+		b.traversalArgs(node.(*ast.ParenthesesExpr).Expr, argsIndex)
+		break
+	case *ast.UnaryOperationExpr:
+		b.traversalArgs(node.(*ast.UnaryOperationExpr).V, argsIndex)
+		break
 	case *ast.BetweenExpr:
 		expr := node.(*ast.BetweenExpr)
 		b.traversalArgs(expr.Left, argsIndex)
